@@ -29,7 +29,7 @@ Case == /\ e.ev = "case"
         /\ UNCHANGED <<nbad, ndraws, npanic>>
 
 Doc == [case |-> [ev |-> k.ev, sampler |-> k.sampler, seed |-> k.seed, dense |-> k.dense, src |-> k.src,
-                  draws |-> k.draws, rounds |-> k.rounds, vs |-> k.vs], event |-> e]
+                  draws |-> k.draws, rounds |-> k.rounds, useeds |-> k.useeds, vs |-> k.vs], event |-> e]
 
 \* "with a fixed seed returns the same sequence for the same inputs"
 SeqRec ==
@@ -61,7 +61,24 @@ Pick ==
   /\ npanic' = IF e.outcome = "ok" THEN npanic ELSE npanic + 1
   /\ UNCHANGED <<ncase, k, noutside, okIds, judged>>
 
-TNext == /\ l <= NRec /\ l' = l + 1 /\ (Case \/ SeqRec \/ Pick)
+\* controlled draws: e.ids[j] is what a fresh Multinomial::with_seed(k.useeds[j])
+\* returned for vs[e.i]; its uniform draw (first f32 of that seed) has the bit
+\* pattern e.ubits[j] -- the seeds are chosen so that the draws include the
+\* largest and smallest values f32 draws can take (rounding gap above the sum
+\* of the probabilities, first candidate).  Whatever the draw and whatever the
+\* summation order, the id must be a candidate with non-zero probability.
+UDraw ==
+  /\ e.ev = "udraw"
+  /\ LET v == k.vs[e.i]
+         bad == Elems(e.ids) \ okIds[e.i]
+     IN nbad' = Flag(nbad, (e.outcome = "ok" /\ judged[e.i]) => (bad = {} /\ Len(e.ids) = Len(k.useeds)),
+                     [sampler |-> k.sampler, check |-> "candidate",
+                      cls |-> IF bad = {} THEN "" ELSE Cls(v, k.sampler, CHOOSE id \in bad : TRUE)], Doc)
+  /\ ndraws' = ndraws + Len(e.ids)
+  /\ npanic' = IF e.outcome = "ok" THEN npanic ELSE npanic + 1
+  /\ UNCHANGED <<ncase, k, noutside, okIds, judged>>
+
+TNext == /\ l <= NRec /\ l' = l + 1 /\ (Case \/ SeqRec \/ Pick \/ UDraw)
 
 Report == l = NRec + 1 =>
             /\ ReportBad(nbad)
